@@ -208,7 +208,9 @@ CHECKS = {
              "the squared error, is homogeneous in the estimate, invariant under rescaling references and idempotent "
              "on the span, so that decomposition / scale-invariance / perfect-estimate theorems hold for the concrete "
              "model with NO hypothesis on the projection, end to end for every output of the exact bss_eval_sources "
-             "incl. the permutation; _project_images is _project channel by channel. The exact model is tied to the "
+             "incl. the permutation; normal equations are always consistent and the lstsq fall-back (elimination with free "
+             "unknowns set to 0) is total and least-squares for every input (solveAny_normal_equations, projectAny_total); "
+             "_project_images is _project channel by channel. The exact model is tied to the "
              "real _project, _project_images, _bss_decomp_mtifilt(_images), the criteria and bss_eval_sources/_images "
              "(forced filter length 1..3, cached-G path, lstsq fall-back) by correspondence at 1e-9.",
         note="PARTIAL in one respect: that the FFT / Toeplitz / solve / fftconvolve pipeline computes the exact projection "
